@@ -25,7 +25,7 @@ type Profile struct {
 var (
 	C07 = Profile{Prop: "C07", Import: "Da.C07Check", Type: "c07_case",
 		Rule: "one case = one operation (publish / submit-invalidity / submit-validity-proof / (un)register deputy / block end) executed on the real application with the projection of x/da state and balances dumped before and after; non-trivial (DESIGN.md section 9) when a block end fell within 1 s of a challenge/proof/retention deadline of some item or changed at least one item's status; distinct by (set of transitions, offset bucket to the nearest deadline, number of items)"}
-	C08 = Profile{Prop: "C08", Import: "Da.C08Check", Type: "da_case",
+	C08 = Profile{Prop: "C08", Import: "Da.C08Check", Type: "c08_case",
 		Rule: "one case = one operation on the real application with x/da state and real bank balances (module account, publishers, challengers, validators) before and after; non-trivial (DESIGN.md section 9) when the block end resolved an item that had at least one challenger, or expired an item below the threshold with at least one invalidity record; distinct by (transition, number of challengers, records left, collateral vectors)"}
 )
 
@@ -47,6 +47,11 @@ type Runner struct {
 	// history monitor judges every move against it).
 	ghost []Item
 	msgs  int // messages executed in the block being assembled
+	// ledger (C08's ghost): per unresolved uri, what the module account actually gained on the
+	// accepted publish and on every accepted challenge for it; kept independently of the stores.
+	ledger map[int][]*big.Int
+	// pruned: uris of items that were removed at a block end (candidates for re-publication)
+	pruned []int
 }
 
 func (rn *Runner) dump() State {
@@ -97,6 +102,19 @@ func (rn *Runner) Do(op *Op) (State, State) {
 		}
 		term = fmt.Sprintf("HCase %s (%s)", emit.List(g), term)
 	}
+	if rn.Prof.Prop == "C08" {
+		uris := make([]int, 0, len(rn.ledger))
+		for u := range rn.ledger {
+			uris = append(uris, u)
+		}
+		sort.Ints(uris)
+		g := make([]string, len(uris))
+		for i, u := range uris {
+			g[i] = fmt.Sprintf("(%d, %s)", u, zsBig(rn.ledger[u]))
+		}
+		term = fmt.Sprintf("GCase %s (%s)", emit.List(g), term)
+	}
+	rn.updateLedger(pre, op, post)
 	rn.CF.Add(term)
 	info := op.Info()
 	info["ghost_after_previous_block"] = fmt.Sprint(len(rn.ghost), " items")
@@ -117,6 +135,41 @@ func (rn *Runner) Do(op *Op) (State, State) {
 		rn.Advance(time.Second)
 	}
 	return pre, post
+}
+
+// updateLedger books what this operation did to the deposits, from the observed balances only.
+func (rn *Runner) updateLedger(pre State, op *Op, post State) {
+	if rn.ledger == nil {
+		rn.ledger = map[int][]*big.Int{}
+	}
+	gain := make([]*big.Int, len(Denoms))
+	for i := range gain {
+		gain[i] = new(big.Int).Sub(post.Bals[0][i], pre.Bals[0][i])
+	}
+	switch op.Kind {
+	case OpPublish:
+		if op.Res == 0 {
+			rn.ledger[op.URI] = gain
+		}
+	case OpInval:
+		if op.Res == 0 {
+			if cur, ok := rn.ledger[op.URI]; ok {
+				for i := range cur {
+					cur[i] = new(big.Int).Add(cur[i], gain[i])
+				}
+			}
+		}
+	case OpEndBlock:
+		for _, it := range pre.Items {
+			p := findItem(post, it.URI)
+			if p == nil {
+				rn.pruned = append(rn.pruned, it.URI)
+			}
+			if p == nil || p.Status == StVerified || p.Status == StRejected {
+				delete(rn.ledger, it.URI)
+			}
+		}
+	}
 }
 
 func resName(r int) string {
@@ -312,6 +365,8 @@ func (rn *Runner) NewWorldN(nAcct int, jail bool) {
 	rn.invalidate()
 	rn.ghost = nil
 	rn.msgs = 0
+	rn.ledger = map[int][]*big.Int{}
+	rn.pruned = nil
 	w := rn.W
 	// one poor account: everything but 50 of each denom goes to another account
 	rn.Poor = w.AcctIDs[len(w.AcctIDs)-1]
@@ -343,6 +398,13 @@ func (rn *Runner) Publish(sender, n int, parity uint64) (int, int) {
 	op := &Op{Kind: OpPublish, Sender: sender, URI: uri, N: n, Parity: parity}
 	rn.Do(op)
 	return uri, op.Res
+}
+
+// PublishURI publishes under a given uri (re-publication of a removed item's uri).
+func (rn *Runner) PublishURI(sender, uri, n int, parity uint64) int {
+	op := &Op{Kind: OpPublish, Sender: sender, URI: uri, N: n, Parity: parity}
+	rn.Do(op)
+	return op.Res
 }
 func (rn *Runner) Inval(sender, uri int, idx ...int64) int {
 	op := &Op{Kind: OpInval, Sender: sender, URI: uri, Idx: idx}
@@ -617,6 +679,50 @@ func (rn *Runner) SameBlock() {
 	rn.finish()
 }
 
+// FreePublishing: publish collateral empty (accepted by Params.Validate). An item is challenged
+// over the threshold and VERIFIED by the tally with every challenger right (they name exactly the
+// unproven shards, which the parity shards cover), so the publisher's refund is empty; then the item
+// is pruned and the same uri is published again under non-empty collateral, challenged and
+// resolved. The records and proofs of the first life must be gone by then. Run twice: with and
+// without invalidity collateral.
+func (rn *Runner) FreePublishing() {
+	rn.tag = "corpus:free-publishing"
+	rn.NewWorldN(6, false)
+	a := func(i int) int { return rn.W.AcctIDs[i] }
+	for round, ic := range [][2]int64{{100, 3}, {0, 0}} {
+		free := PSet{Thr: "0.5", RF: "1", CP: 10 * time.Second, PP: 10 * time.Second, Rej: 12 * time.Second, Ver: 12 * time.Second,
+			PC: [2]int64{0, 0}, IC: ic}
+		rn.SetParams(free)
+		u, _ := rn.Publish(a(0), 4, 2)
+		uOther, _ := rn.Publish(a(3), 4, 2) // unchallenged neighbour: expires with an empty refund
+		rn.Inval(a(1), u, 3)
+		rn.Inval(a(2), u, 2, 3)
+		_, post, _ := rn.EndBlock() // u challenging
+		_ = uOther
+		ts := findItem(post, u).Ts
+		for _, v := range rn.W.ValIDs {
+			rn.ProofOK(v, v, u, 0, 1) // shards 0 and 1 proven, 2 and 3 not: both challengers are right
+		}
+		rn.EndBlock()
+		rn.BlockAt(ns(ts + 10_000_000_000)) // tally: verified, challengers refunded, nothing for the publisher
+		rn.BlockAt(ns(ts + 23_000_000_000)) // pruned
+		paid := free
+		paid.PC = [2]int64{1000, 7}
+		paid.IC = [2]int64{60, 0}
+		rn.SetParams(paid)
+		rn.PublishURI(a(4), u, 4, 0) // the same uri again
+		if round == 0 {
+			rn.Inval(a(3), u, 0)
+		}
+		_, post, _ = rn.EndBlock()
+		ts = findItem(post, u).Ts
+		rn.BlockAt(ns(ts + 10_000_000_000))
+		rn.BlockAt(ns(ts + 21_000_000_000))
+		rn.BlockAt(ns(ts + 35_000_000_000))
+		rn.finish()
+	}
+}
+
 // RejectShares: rejected items with k = 1..9 challengers whose publish collateral leaves every
 // interesting remainder modulo k (0, 1, k/2, k/2+1, k-1; the quotient is odd so that a remainder of
 // exactly k/2 is rounding-sensitive too), two remainder classes per item (one per denom). The items
@@ -726,7 +832,7 @@ var (
 	cps  = []time.Duration{4 * time.Second, 6500 * time.Millisecond, 10 * time.Second, 7123456789, time.Second}
 	pps  = []time.Duration{5 * time.Second, 8 * time.Second, 6000000001, 500 * time.Millisecond, 3 * time.Second, time.Nanosecond}
 	rets = []time.Duration{6 * time.Second, 9 * time.Second, 12500 * time.Millisecond, time.Second, time.Nanosecond}
-	pcs  = [][2]int64{{1_000_000_000, 0}, {1000, 0}, {1000, 7}, {0, 0}, {10, 3}, {0, 5}, {1001, 8}, {5, 2}, {1_000_000_001, 0}}
+	pcs  = [][2]int64{{1_000_000_000, 0}, {1000, 0}, {1000, 7}, {0, 0}, {10, 3}, {0, 5}, {1001, 8}, {5, 2}, {1_000_000_001, 0}, {0, 0}, {0, 0}}
 	ics  = [][2]int64{{100_000_000, 0}, {100, 0}, {100, 3}, {0, 0}, {7, 1}, {60, 0}}
 	offs = []int64{-1_500_000_000, -999_999_999, -400_000_000, -1, 0, 0, 0, 1, 400_000_000, 999_999_999, 1_000_000_000}
 )
@@ -759,6 +865,27 @@ func (rn *Runner) pickTime() {
 		}
 	}
 	rn.Advance(time.Duration(200_000_000 + r.Int63n(3_000_000_000)))
+}
+
+// republishable picks the uri of a removed item that is not stored now and has no surviving record.
+// (Records that survive their item are known finding C08-F1; publishing over them again is a
+// downstream effect of that finding, which its trigger does not cover, so the random stream keeps
+// away from it. The corpus re-publishes unconditionally.)
+func (rn *Runner) republishable(s State) int {
+	for i := len(rn.pruned) - 1; i >= 0; i-- {
+		u := rn.pruned[i]
+		ok := findItem(s, u) == nil
+		for _, v := range s.Invs {
+			ok = ok && v.URI != u
+		}
+		for _, v := range s.Prfs {
+			ok = ok && v.URI != u
+		}
+		if ok {
+			return u
+		}
+	}
+	return 0
 }
 
 func subset(r *emit.Rand, n, k int) []int64 {
@@ -815,6 +942,22 @@ func (rn *Runner) randMsg() {
 	}
 	if len(ch) > 0 && r.Chance(1, 4) {
 		it := ch[r.Intn(len(ch))]
+		// sometimes prove exactly the shards nobody disputed: every challenger stays right
+		complement := r.Chance(1, 3)
+		var undisputed []int64
+		for i := int64(0); i < int64(it.N); i++ {
+			hit := false
+			for _, v := range s.Invs {
+				if v.URI == it.URI {
+					for _, j := range v.Idx {
+						hit = hit || j == i
+					}
+				}
+			}
+			if !hit {
+				undisputed = append(undisputed, i)
+			}
+		}
 		for _, v := range w.ValIDs {
 			if v == rn.Jail || r.Chance(1, 4) {
 				continue
@@ -824,6 +967,9 @@ func (rn *Runner) randMsg() {
 				k = 1 + r.Intn(it.N)
 			}
 			idx := subset(r, it.N, k)
+			if complement {
+				idx = undisputed
+			}
 			sender := v
 			for _, d := range s.Deps {
 				if d[0] == v {
@@ -895,6 +1041,8 @@ func (rn *Runner) randMsg() {
 		op := &Op{Kind: OpPublish, Sender: sender, N: n, Parity: parity}
 		if len(s.Items) > 0 && r.Chance(1, 15) {
 			op.URI = s.Items[r.Intn(len(s.Items))].URI
+		} else if u := rn.republishable(s); u != 0 && r.Chance(1, 3) {
+			op.URI = u // the uri of an item that was removed
 		} else {
 			op.URI = w.NextURI
 			w.NextURI++
@@ -1029,6 +1177,7 @@ func Run(prof Profile, seed int64, n int, outDir string) error {
 		CF: &emit.CasesFile{Import: prof.Import, Runner: "run", Type: prof.Type}}
 	rn.Corpus()
 	rn.SameBlock()
+	rn.FreePublishing()
 	rn.RejectShares()
 	if zeroGuarded(prof) {
 		rn.ZeroThreshold()
